@@ -180,6 +180,27 @@ def check_case(ctx: Ctx, c: Dict[str, Any], k: int = 0) -> None:
             pts = gt.points(ax).reshape(1, *tshape, D)
             o = guarded("SampleImage", lambda: sm(pts, data.unsqueeze(0).unsqueeze(0)), axes=ax.value)
             cmp_lin("SampleImage", o, axes=ax.value)
+    # TransformImage / AlignImage without a transform are plain resamplers from the source to the target grid
+    from deepali.modules.sample import AlignImage, TransformImage
+
+    for cls_ in (TransformImage, AlignImage):
+        for ax in (None, Axes.WORLD, Axes.CUBE):
+            tm = guarded(cls_.__name__, lambda: cls_(target=gt, source=gs, axes=ax, sampling="linear", padding=pad), axes=str(ax and ax.value), transform=None)
+            if tm is not None:
+                o = guarded(cls_.__name__, lambda: tm(None, data.unsqueeze(0).unsqueeze(0)), axes=str(ax and ax.value), transform=None)
+                cmp_lin(cls_.__name__ + "(None)", o, axes=str(ax and ax.value))
+    # sampling on its own grid returns the image unchanged: through the modules, with points given w.r.t. every axes
+    for ax in (None, Axes.WORLD, Axes.GRID, Axes.CUBE, Axes.CUBE_CORNERS):
+        if ax is Axes.CUBE_CORNERS and min(c["src"]["g"]["n"]) == 1:
+            continue
+        for src_arg in (None, gs):
+            sm = guarded("SampleImage[own grid]", lambda: SampleImage(target=gs, source=src_arg, axes=ax, sampling="linear", padding=pad), axes=str(ax and ax.value))
+            if sm is None:
+                continue
+            pts = gs.points(ax if ax is not None else Axes.from_grid(gs)).reshape(1, *data.shape, D)
+            o = guarded("SampleImage[own grid]", lambda: sm(pts, data.unsqueeze(0).unsqueeze(0)), axes=str(ax and ax.value))
+            if o is not None and (tuple(o.shape[2:]) != tuple(data.shape) or max_err(o.reshape(data.shape), data) > 1e-4 * max(1.0, float(data.abs().max()))):
+                bad("SampleImage[own grid]", f"sampling an image on its own grid (points w.r.t. {ax and ax.value} axes, source={'None' if src_arg is None else 'same grid'}) changes it", axes=str(ax and ax.value), own=True)
     # sampling on its own grid returns the image unchanged
     o = guarded("Image.sample[own grid]", lambda: img.sample(gs, padding=pad))
     if o is not None and max_err(o.tensor(), data.unsqueeze(0)) > 1e-5:
